@@ -26,7 +26,7 @@ PATTERNS = [
     ("=(x: n)", "[13, n]"), ("=R[('int)m]", "[14, m]"),
 ]
 FALLBACKS = [None, "[99]"]
-REBIND_TAGS = {"shadowing", "rebind_after_closure", "repeated_binder"}
+
 
 EXTRA = [
     # tail calls with arguments of another type than the parameter (the compiler must reject or the run must be sound)
@@ -49,6 +49,26 @@ EXTRA = [
     "p = 3 @#'int { [~, 1] __integer_add__ }, q = @#{ !#['int, 'bin] .1 }, [!p, 0x05] q, !q",
     "w = @#{ ! [#'int, #'bin { =0x01 => Ok }, 5] }, 0x01 w, !w",
 ]
+
+
+def spread_cases():
+    """every tuple literal built from one or two spread sources and one explicit field, over colliding and fresh
+    labels, the explicit field before / after / between the spreads, with field values of other types than the
+    source's (the TYPE of a field and the VALUE it gets must come from the same place)"""
+    srcs = [("a", "A[x: 5, y: 2]"), ("b", "[x: 0x01, z: Q]"), ("c", "C[7, y: [1, 2]]")]
+    vals = ["0x00", "9", "R[1]", "[]"]
+    out = []
+    for (n1, e1) in srcs:
+        for l in ("x", "y", "z", ""):
+            for v in vals:
+                f = ("%s: %s" % (l, v)) if l else v
+                for lit in ("[%s, ...%s]" % (f, n1), "[...%s, %s]" % (n1, f), "%s[..., %s]" % (n1, f), "P[%s, ...%s]" % (f, n1)):
+                    out.append("%s = %s, r = %s, [r]" % (n1, e1, lit))
+                for (n2, e2) in srcs:
+                    if n2 != n1:
+                        for lit in ("[%s, ...%s, ...%s]" % (f, n1, n2), "[...%s, %s, ...%s]" % (n1, f, n2), "[...%s, ...%s, %s]" % (n1, n2, f)):
+                            out.append("%s = %s, %s = %s, r = %s, [r]" % (n1, e1, n2, e2, lit))
+    return out
 
 
 def cross_product(rnd, limit):
@@ -83,11 +103,12 @@ def run(prop, tier):
                 reqs.append({"id": "x%d_%d" % (n, v), "src": render_case(vs, ps, fb, arg), "kind": "cross"})
     for n, src in enumerate(EXTRA):
         reqs.append({"id": "t%d" % n, "src": src, "kind": "extra"})
+    for n, src in enumerate(spread_cases()):
+        reqs.append({"id": "s%d" % n, "src": src, "kind": "spreads"})
     progs = [s for _, s in corpus.test_sources() + corpus.spec_blocks()]
     rnd.shuffle(progs)
     for n, src in enumerate(progs[:400 if tier == "quick" else len(progs)]):
         reqs.append({"id": "c%d" % n, "src": src, "kind": "corpus"})
-    skipped_rebind = 0
     try:
         import seqgen, seqast
         # a FIXED corpus (generator seed 1 whatever VERIF_SEED is): the compiler's open typing defects are dense
@@ -96,12 +117,6 @@ def run(prop, tier):
         for g in seqgen.generate_programs(1, 1500 if tier == "quick" else 20000):
             if g["known"]:
                 continue        # syntactic trigger of a language defect pinned under C02
-            if REBIND_TAGS & set(g["tags"]):
-                # a name bound twice: the compiler keeps typing it by its FIRST binding (pinned under C02:
-                # narrowing-survives-rebinding, spread-of-rebound-variable-uses-old-type); not generated here
-                # until that is repaired
-                skipped_rebind += 1
-                continue
             reqs.append({"id": "g" + g["id"], "src": seqast.render(g["ast"]), "kind": "generated"})
     except Exception as e:      # the language engine is optional here
         check.cov["generated_programs_unavailable"] = str(e)[:100]
@@ -164,7 +179,6 @@ def run(prop, tier):
     check.cov["accepted_and_judged"] = nrec
     check.cov["rejected_by_compiler"] = rejected
     check.cov["per_kind"] = kinds
-    check.cov["generated_skipped_rebinding"] = skipped_rebind
     check.cov["distinct_nontrivial"] = len({r["src"] for r in reqs if r["id"] in outs and outs[r["id"]]["outcome"]["t"] in ("value", "error")
                                             and r["kind"] != "corpus"})
     check.cov["rule"] = ("one evaluation = one program offered to the compiler; judged = accepted programs that terminated; cross = "
